@@ -352,3 +352,58 @@ def map_programs(draw):
         a = draw(st.sampled_from(qs))
         ev.append(["evidence", a, draw(st.booleans()), 0])
     return prog + [["query", a, False] for a in qs] + ev[:3]
+
+
+# ------------------------------------------------------------------------------------------------ interacting decisions
+
+COST_GRID = ["-5", "-3", "-2", "-1", "-0.5", "-0.5", "0.5", "1"]
+
+
+@st.composite
+def dt_interacting_programs(draw):
+    """Small decision problems in which the value of one decision depends on the others (the shape local search has
+    to get right): 2-3 decision facts, 0-2 chance facts, 2-4 derived atoms whose bodies combine two or three
+    decisions with mixed polarity (plus possibly a chance fact), utilities on the derived atoms, costs (or small
+    rewards) on individual decisions.  The statements - hence the declaration order of the decisions, the order of
+    the utilities and so the order in which DT-ProbLog grounds and tries the decisions - are shuffled; so are the
+    literals of every body.  E.g.  0.5::c. ?::x. ?::y. r :- y, \\+x. s :- x, y, c. utility(r,1). utility(s,10).
+    utility(x,-2)."""
+    ndec = draw(st.integers(2, 3))
+    decs = [[n, []] for n in ["x", "y", "z"][:ndec]]
+    nch = draw(st.integers(0, 2))
+    chances = [["c%d" % (i + 1), []] for i in range(nch)]
+    stmts = [["dfact", d] for d in decs]
+    for c in chances:
+        stmts.append(["pfact", draw(st.sampled_from(gp.PROB_GRID[1:-1])), c])
+    nder = draw(st.integers(2, 4))
+    derived = []
+    for i in range(nder):
+        h = ["r%d" % (i + 1), []]
+        k = draw(st.integers(2, ndec)) if draw(st.integers(0, 4)) else 1
+        ds = list(draw(st.permutations(decs)))[:k]
+        lits = [[draw(st.booleans()), d[0], d[1]] for d in ds]
+        if chances and (k == 1 or draw(st.integers(0, 2)) == 0):
+            c = draw(st.sampled_from(chances))
+            lits.append([draw(st.integers(0, 3)) == 0, c[0], c[1]])
+        if len(lits) < 2:
+            # a body that is a single decision literal would make the head an alias of the decision
+            o = [d for d in decs if d != ds[0]][0]
+            lits.append([draw(st.booleans()), o[0], o[1]])
+        lits = list(draw(st.permutations(lits)))
+        if draw(st.integers(0, 5)) == 0:
+            stmts.append(["ad", [[draw(st.sampled_from(gp.PROB_GRID[1:-1])), h]], lits])
+        else:
+            stmts.append(["rule", h, lits])
+        derived.append(h)
+        # now and then a second clause for the same head
+        if draw(st.integers(0, 5)) == 0:
+            ds2 = list(draw(st.permutations(decs)))[:2]
+            stmts.append(["rule", h, [[draw(st.booleans()), d[0], d[1]] for d in ds2]])
+    utils = []
+    for h in derived:
+        if draw(st.integers(0, 3)) != 0 or not utils:
+            utils.append(["utility", h, draw(st.integers(0, 5)) == 0, draw(st.sampled_from(UTIL_GRID))])
+    for d in decs:
+        if draw(st.booleans()):
+            utils.append(["utility", d, False, draw(st.sampled_from(COST_GRID))])
+    return list(draw(st.permutations(stmts + utils)))
